@@ -705,7 +705,10 @@ impl Core {
             applied: false,
         });
         // early visibility of writes: apply to the visible content now
-        if kind == ReqKind::Write && self.knobs.borrow().early_visible {
+        if kind == ReqKind::Write
+            && self.knobs.borrow().early_visible
+            && off.saturating_add(len as u64) <= MAX_FILE_SIZE
+        {
             // the fault decision is made at completion; an early-visible write
             // that later fails stays visible (a failed write may have reached
             // the page cache) -- only used in fault-free profiles.
